@@ -174,4 +174,40 @@ def entryWrites (o : OpInfo) : Bool :=
 
 theorem writers_flagged : allEntries entryWrites = true := by decide +kernel
 
+/-- DUPn / SWAPn have n ≥ 1 (the transcription's `n = 0` branch is dead) -/
+def entryDupSwap (o : OpInfo) : Bool :=
+  match o.exec with
+  | .dup n | .swap n => decide (1 ≤ n ∧ n ≤ 16)
+  | _ => true
+
+theorem dup_swap_range : allEntries entryDupSwap = true := by decide +kernel
+
+/-- the call family is priced by its own gas function (which is what makes the
+    2300 stipend smaller than the 9000 paid for the value transfer) -/
+def entryCallDyn (o : OpInfo) : Bool :=
+  match o.exec with
+  | .call .call => o.dyn == .call
+  | .call .callcode => o.dyn == .callcode
+  | .call .delegatecall => o.dyn == .delegatecall
+  | .call .staticcall => o.dyn == .staticcall
+  | .authcall => o.dyn == .authcall
+  | _ => true
+
+theorem calls_priced_by_their_gas_function : allEntries entryCallDyn = true := by decide +kernel
+
+/-- an operation that names a memory-size function is priced by a gas function that
+    charges the memory fee for that size -/
+def entryMemPaid (o : OpInfo) : Bool :=
+  match o.mem with
+  | .none => true
+  | _ => match o.dyn with
+    | .pureMem | .copier _ | .sha3 | .create2 | .log _ | .call | .callcode | .delegatecall | .staticcall | .authcall => true
+    | _ => false
+
+theorem memory_users_pay_memory : allEntries entryMemPaid = true := by decide +kernel
+
+/-- slot 0 (also what `GetOp` returns beyond the end of the code) is STOP: free and halting -/
+theorem slot0_is_stop : Gen.allTables.all (fun t => t.toList.head? == some (some ⟨.stop, 0, 0, 1024, .none, .none, true, false, false, false, false⟩)) = true := by
+  decide +kernel
+
 end Rangers.Props.C11
